@@ -14,8 +14,8 @@ class Driver:
     """descriptor of an extern "C" driver: params = list of
     (name, kind, elem_bytes, count) with kind in {'in','out','val'}"""
 
-    def __init__(self, name, params, body, uses=""):
-        self.name, self.params, self.body = name, params, body
+    def __init__(self, name, params, body, host="src/lib.rs"):
+        self.name, self.params, self.body, self.host = name, params, body, host
 
     def rust(self):
         ps = []
@@ -68,12 +68,20 @@ def build(drivers, prelude="", features=None, no_default=False, rustflags="", ta
     """drivers: list of Driver.  Returns Built."""
     t0 = time.time()
     sc = Scratch()
-    src = ["#[cfg(%s)]" % GUARD, "#[allow(unused_imports, dead_code, non_snake_case, unused_variables, unused_mut)]",
-           "pub mod verif_drv {", "    use core::mem::transmute;", prelude]
+    hosts = {}
     for d in drivers:
-        src.append(d.rust())
-    src.append("}")
-    sc.append("src/lib.rs", "\n".join(src))
+        hosts.setdefault(d.host, []).append(d)
+    for k, (host, ds) in enumerate(sorted(hosts.items())):
+        src = ["#[cfg(%s)]" % GUARD,
+               "#[allow(unused_imports, dead_code, non_snake_case, unused_variables, unused_mut)]",
+               "pub mod verif_drv_%d {" % k, "    use core::mem::transmute;"]
+        if host != "src/lib.rs":
+            src.append("    use super::*;")
+        src.append(prelude)
+        for d in ds:
+            src.append(d.rust())
+        src.append("}")
+        sc.append(host, "\n".join(src))
     cmd = ["cargo", "rustc", "--offline", "--release", "--lib", "--crate-type", "cdylib",
            "--target-dir", sc.target]
     if no_default:
